@@ -21,19 +21,19 @@ import (
 // arrives before the deadline is delivered, otherwise the read fails with
 // os.ErrDeadlineExceeded at the deadline instant - never before it.
 type timedConn struct {
-	D         []byte
-	pos       int
-	timeout   time.Duration
-	deadline  time.Time
-	armedAt   []time.Time
-	cleared   int
-	timeouts  int
-	closed    int
-	reads     int
-	maxReads  int
-	cx        *layer4.Connection
-	maxBuf    int
-	flood     bool
+	D        []byte
+	pos      int
+	timeout  time.Duration
+	deadline time.Time
+	armedAt  []time.Time
+	cleared  int
+	timeouts int
+	closed   int
+	reads    int
+	maxReads int
+	cx       *layer4.Connection
+	maxBuf   int
+	flood    bool
 }
 
 func (c *timedConn) delay() time.Duration {
@@ -86,10 +86,10 @@ func (c *timedConn) Read(p []byte) (int, error) {
 	c.pos += n
 	return n, nil
 }
-func (c *timedConn) Write(p []byte) (int, error) { return len(p), nil }
-func (c *timedConn) Close() error                { c.closed++; return nil }
-func (c *timedConn) LocalAddr() net.Addr         { return &net.TCPAddr{IP: net.IP{10, 0, 0, 1}, Port: 443} }
-func (c *timedConn) RemoteAddr() net.Addr        { return &net.TCPAddr{IP: net.IP{10, 0, 0, 2}, Port: 40000} }
+func (c *timedConn) Write(p []byte) (int, error)        { return len(p), nil }
+func (c *timedConn) Close() error                       { c.closed++; return nil }
+func (c *timedConn) LocalAddr() net.Addr                { return &net.TCPAddr{IP: net.IP{10, 0, 0, 1}, Port: 443} }
+func (c *timedConn) RemoteAddr() net.Addr               { return &net.TCPAddr{IP: net.IP{10, 0, 0, 2}, Port: 40000} }
 func (c *timedConn) SetDeadline(t time.Time) error      { return nil }
 func (c *timedConn) SetWriteDeadline(t time.Time) error { return nil }
 func (c *timedConn) SetReadDeadline(t time.Time) error {
